@@ -11,6 +11,7 @@ structure TbOK (tb : Tables) : Prop where
   bin_pos : ∀ o q a, tb.binary.lookup o = some (q, a) → 0 < q
   bin_follow : ∀ o qa, tb.binary.lookup o = some qa → o ≠ "." ∧ o ≠ "?." ∧ o ≠ "[" ∧ o ≠ "(" ∧ o ≠ "?"
   un_val : ∀ o x, tb.unary.lookup o = some x → o ≠ "#" ∧ o ≠ "." ∧ o ≠ ":" ∧ o ≠ ","
+  bi_names : ∀ n ar, tb.builtins.lookup n = some ar → reserved n = false
   no_quest : tb.binary.lookup "?" = none
   no_colon : tb.binary.lookup ":" = none
   no_comma : tb.binary.lookup "," = none
